@@ -1,6 +1,282 @@
-/- C12 — property theorems.  Stub. -/
-import CBV.Model.C12
+/-
+C12 — property theorems about the state machine `CBV.C12` (Model/C12.lean), for *every* state / history:
+
+* `T_C12_clear`           clear(); assemble() does not change the written dictionary, also after any number of
+                          modify_patch / set_default_patch / write calls on the assembled mesh;
+* `T_C12_clear_fresh`     the same, stated against a single assembly of a never-assembled mesh;
+* `T_C12_roundtrip_idem`  clear(); assemble() twice = once (state equality);
+* `T_C12_write_idem`      a second write() leaves state and file as they are;
+* `T_C12_delete`          after delete + re-assembly the lists are those of the mesh that never held the
+                          operation; the blocks are exactly the live operations, each once, in order;
+* `T_C12_aligned`         after (re-)assembly every operation has the locations of its block's vertices;
+* `T_C12_backport_id`     backport() with no vertex moved = clear(); assemble(), the file is unchanged;
+* `T_C12_backport_move`   backport() gives every operation that has a block the locations of that block's vertices,
+                          leaves operations without a block (deleted ones) alone, and re-assembles on them;
+* `T_C12_backport_single_move`  after one move_to: only corners that sat on the moved vertex change;
+* `T_C12_wf_run`          the representation invariant holds along every legal history.
+-/
+import CBV.Lemmas.C12d
 
 namespace CBV.C12
+
+section
+attribute [local irreducible] addVerts addEdges addFaces patchItems faceItems
+
+/-! ### clear / assemble -/
+
+/-- `clear(); assemble()` twice is the same state as once -/
+theorem T_C12_roundtrip_idem (m : Mesh) : RT (RT m) = RT m := RT_idem m
+
+/-- Take any state `m`, re-assemble it (`RT m = assemble (clear m)`), then call modify_patch / set_default_patch /
+    write any number of times: clearing and assembling again does not change what `write` produces. -/
+theorem T_C12_clear (m : Mesh) (q : List Step) (hq : ∀ s ∈ q, s.quiet = true) :
+    written (RT (run (RT m) q)) = written (run (RT m) q) :=
+  canon_written _ (canon_run (RT m) q hq (canon_RT m))
+
+/-- the same against a *single* assembly: `u` has never been assembled (or was cleared) -/
+theorem T_C12_clear_fresh (u : Mesh) (hu : clear u = u) (q : List Step) (hq : ∀ s ∈ q, s.quiet = true) :
+    written (assemble (clear (run (assemble u) q))) = written (run (assemble u) q) := by
+  have : assemble u = RT u := by unfold RT; rw [hu]
+  rw [this]
+  exact T_C12_clear u q hq
+
+/-- non-vacuity: modify_patch, write, set_default_patch are quiet; a cleared mesh exists -/
+example : ∀ s ∈ [Step.modify "inlet" "wall" (some ["transform none"]), Step.write, Step.setDefault "walls" "wall"],
+    s.quiet = true := by decide
+
+/-! ### write twice -/
+
+/-- a second `write()` returns the same file (or error) and leaves the state as the first one left it -/
+theorem T_C12_write_idem (m : Mesh) : write (write m).1 = ((write m).1, (write m).2) := by
+  by_cases h : isAssembled m = true
+  · have h1 : write m = writeFrom m := by rw [write_eq]; simp [h]
+    have h2 : (writeFrom m).1 = gradeBlocks m := writeFrom_state m h
+    rw [h1, h2]
+    have h3 : isAssembled (gradeBlocks m) = true := h
+    rw [write_eq]
+    simp only [h3, if_true]
+    rw [writeFrom_gradeBlocks m h, ← h2]
+  · have h' : isAssembled m = false := by simpa using h
+    have h1 : write m = writeFrom (assemble m) := by rw [write_eq]; simp [h']
+    by_cases g : isAssembled (assemble m) = true
+    · have h2 : (writeFrom (assemble m)).1 = gradeBlocks (assemble m) := writeFrom_state _ g
+      rw [h1, h2]
+      have h3 : isAssembled (gradeBlocks (assemble m)) = true := g
+      rw [write_eq]
+      simp only [h3, if_true]
+      rw [writeFrom_gradeBlocks _ g, ← h2]
+    · have g' : isAssembled (assemble m) = false := by simpa using g
+      have hm : assemble m = m := assemble_of_not_assembled m g'
+      rw [h1, hm]
+      have : (writeFrom m).1 = m := by unfold writeFrom; simp [h']
+      rw [this, write_eq]
+      simp only [h', hm, Bool.false_eq_true, if_false]
+      exact Prod.ext this rfl
+
+theorem T_C12_write_idem_file (m : Mesh) : written (write m).1 = written m := by
+  unfold written; rw [T_C12_write_idem]
+
+/-! ### delete -/
+
+/-- `assemble` makes one block per live operation (in the depot, not deleted), in depot order -/
+theorem T_C12_assemble_live (m : Mesh) :
+    (assemble m).lists = (liveOps m).foldl (addOp (slavePatches m)) m.lists ∧
+    (RT m).lists.blocks.map (·.opId) = (liveOps m).map (·.id) ∧
+    (RT m).lists.assembled = (liveOps m).map (·.id) := by
+  refine ⟨assemble_lists m, ?_, ?_⟩
+  · rw [RT_lists]; simpa using (foldl_addOp_blocks (slavePatches m) (liveOps m) {}).1
+  · rw [RT_lists]; simpa using (foldl_addOp_blocks (slavePatches m) (liveOps m) {}).2
+
+/-- Deleting an operation and re-assembling gives the lists — hence the file — of the mesh that never held it:
+    its block is gone and nothing else changes. -/
+theorem T_C12_delete (m : Mesh) (id : Nat) :
+    (RT (delete m id)).lists = (RT (without m id)).lists ∧
+    written (RT (delete m id)) = written (RT (without m id)) ∧
+    (RT (delete m id)).lists.blocks.map (·.opId) = ((liveOps m).filter (fun o => decide (o.id ≠ id))).map (·.id) := by
+  have hl := liveOps_delete m id
+  have h1 : (RT (delete m id)).lists = (RT (without m id)).lists := by
+    rw [RT_lists, RT_lists, hl]; rfl
+  refine ⟨h1, ?_, ?_⟩
+  · apply written_congr _ _ h1 rfl rfl rfl
+    exact hl
+  · rw [(T_C12_assemble_live (delete m id)).2.1, hl]
+    simp only [liveOps, without, List.filter_filter]
+    congr 1
+    apply List.filter_congr
+    intro o _
+    by_cases h1 : o.id = id <;> by_cases h2 : o.id ∈ m.deleted <;> simp [h1, h2]
+
+/-! ### backport -/
+
+/-- After `clear(); assemble()` of a well-formed depot every operation has the locations of its block's vertices. -/
+theorem T_C12_aligned (m : Mesh) (h : DepotWF m.depot) : Aligned (RT m) := aligned_RT m h
+
+/-- `backport()` on an assembled mesh whose vertices were not moved is `clear(); assemble()` -/
+theorem T_C12_backport_id (m : Mesh) (ha : Aligned m) (h : isAssembled m = true) : backport m = some (RT m) := by
+  unfold backport
+  rw [if_pos h, backportDepot_aligned m ha]
+  rfl
+
+/-- Back-porting unmodified vertices yields the same written dictionary as the assembly it started from, whatever
+    modify_patch / set_default_patch / write calls came in between. -/
+theorem T_C12_backport_unmoved (m : Mesh) (h : DepotWF m.depot) (q : List Step) (hq : ∀ s ∈ q, s.quiet = true)
+    (ha : isAssembled (run (RT m) q) = true) :
+    ∃ t', backport (run (RT m) q) = some t' ∧ written t' = written (run (RT m) q) := by
+  refine ⟨RT (run (RT m) q), ?_, T_C12_clear m q hq⟩
+  apply T_C12_backport_id _ _ ha
+  have hwf : DepotWF (RT m).depot := h
+  exact aligned_run (RT m) q hq (canon_RT m) (by rw [← RT_idem m]; exact aligned_RT (RT m) hwf)
+
+/-- What `backport()` does to the depot, for any assembled state in which every block belongs to one operation:
+    an operation without a block (deleted before assembly) is untouched; an operation with a block receives the
+    locations of that block's vertices; the result is re-assembled from that depot, so (`T_C12_aligned`) the new
+    blocks sit on the moved locations. -/
+theorem T_C12_backport_move (m m' : Mesh) (hb : backport m = some m')
+    (hl : m.lists.blocks.length = m.lists.assembled.length) (hn : m.lists.assembled.Nodup) :
+    let pairs := m.lists.blocks.zip m.lists.assembled
+    m'.depot = m.depot.map (bpOne m.lists.verts pairs) ∧
+    m' = RT { m with depot := m.depot.map (bpOne m.lists.verts pairs) } ∧
+    (∀ o, o.id ∉ m.lists.assembled → bpOne m.lists.verts pairs o = o) ∧
+    (∀ p ∈ pairs, ∀ o, o.id = p.2 →
+      (bpOne m.lists.verts pairs o).corners = p.1.verts.map (locOf m.lists.verts) ∧
+      (bpOne m.lists.verts pairs o).id = o.id) := by
+  intro pairs
+  have hsnd : pairs.map (·.2) = m.lists.assembled := by
+    simp only [pairs]
+    rw [List.map_snd_zip]; omega
+  unfold backport at hb
+  split at hb
+  · cases hb
+    refine ⟨?_, ?_, ?_, ?_⟩
+    · show backportDepot _ _ _ = _
+      exact backportDepot_eq_map _ _ _
+    · show assemble (clear _) = RT _
+      rw [backportDepot_eq_map]; rfl
+    · intro o ho
+      apply bpOne_untouched
+      rw [hsnd]; exact ho
+    · intro p hp o hid
+      obtain ⟨b, id⟩ := p
+      simp only at hid
+      subst hid
+      exact ⟨bpOne_corners _ pairs o b (by rw [hsnd]; exact hn) hp, bpOne_id _ _ _⟩
+  · cases hb
+
+/-- One `move_to` on an aligned mesh, then `backport()`: an operation's corner changes iff it sat on the moved
+    vertex; operations whose block does not contain that vertex keep all their points. -/
+theorem T_C12_backport_single_move (m0 : Mesh) (r loc : Nat) (ha : Aligned m0) (hv : m0.lists.verts ≠ []) :
+    let i := r % m0.lists.verts.length
+    let m := moveVertex m0 r loc
+    ∀ p ∈ m0.lists.blocks.zip m0.lists.assembled, ∀ o ∈ m0.depot, o.id = p.2 →
+      p.1.verts.map (locOf m.lists.verts) = p.1.verts.map (fun v => if v = i then loc else locOf m0.lists.verts v) ∧
+      (i ∉ p.1.verts → p.1.verts.map (locOf m.lists.verts) = o.corners) := by
+  intro i m p hp o ho hid
+  have hlen : i < m0.lists.verts.length := Nat.mod_lt _ (List.length_pos_iff.mpr hv)
+  have hm : m.lists.verts = m0.lists.verts.modify i (fun v => { v with loc := loc }) := by
+    simp only [m, moveVertex]
+    have : m0.lists.verts.isEmpty = false := by
+      cases hvv : m0.lists.verts with
+      | nil => exact absurd hvv hv
+      | cons _ _ => rfl
+    simp [this, i]
+  have h1 : p.1.verts.map (locOf m.lists.verts) =
+      p.1.verts.map (fun v => if v = i then loc else locOf m0.lists.verts v) := by
+    apply List.map_congr_left
+    intro v _
+    rw [hm, locOf_modify _ _ _ _ hlen]
+  refine ⟨h1, ?_⟩
+  intro hni
+  rw [h1, ha p hp o ho hid]
+  apply List.map_congr_left
+  intro v hvm
+  have : ¬ v = i := fun e => hni (e ▸ hvm)
+  simp [this]
+
+/-- `backport()` keeps the depot well formed (same identity ⇒ same object, 8 points), so `T_C12_aligned` applies
+    to its result: the re-assembled blocks sit on the back-ported (moved) locations. -/
+theorem T_C12_backport_aligned (m m' : Mesh) (hb : backport m = some m') (h : DepotWF m.depot)
+    (hl : m.lists.blocks.length = m.lists.assembled.length) (hn : m.lists.assembled.Nodup)
+    (h8 : ∀ b ∈ m.lists.blocks, b.verts.length = 8) : DepotWF m'.depot ∧ Aligned m' := by
+  obtain ⟨hd, hrt, _, _⟩ := T_C12_backport_move m m' hb hl hn
+  have hsnd : (m.lists.blocks.zip m.lists.assembled).map (·.2) = m.lists.assembled := by
+    rw [List.map_snd_zip]; omega
+  have hwf : DepotWF m'.depot := by
+    rw [hd]
+    apply depotWF_map_bpOne _ _ _ h (by rw [hsnd]; exact hn)
+    intro p hp
+    exact h8 p.1 (List.of_mem_zip hp).1
+  refine ⟨hwf, ?_⟩
+  rw [hrt]
+  apply aligned_RT
+  rw [hd] at hwf
+  exact hwf
+
+/-! ### the representation invariant along histories -/
+
+/-- the invariant holds in every state a legal history reaches -/
+theorem T_C12_wf_run (m : Mesh) (h : List Step) (hw : WF m) (hl : Legal m h) : WF (run m h) := by
+  induction h generalizing m with
+  | nil => exact hw
+  | cons s rest ih =>
+    simp only [run, List.foldl_cons]
+    exact ih (step m s) (wf_step m s hw hl.1) hl.2
+
+/-- For every legal history: the round-trip, write and delete theorems above hold in the state it reaches (they hold
+    in every state), and the state satisfies the hypotheses of the backport theorems: the depot is well formed, so
+    after `clear(); assemble()` or `backport()` operations and blocks are aligned. -/
+theorem T_C12_history (h : List Step) (hl : Legal {} h) :
+    let s := run {} h
+    DepotWF s.depot ∧ Aligned (RT s) ∧ RT (RT s) = RT s ∧ written (write s).1 = written s := by
+  intro s
+  have hw := T_C12_wf_run {} h wf_init hl
+  exact ⟨hw.1, aligned_RT s hw.1, RT_idem s, T_C12_write_idem_file s⟩
+
+end
+
+/-! ### non-vacuity: a concrete history satisfies the hypotheses -/
+
+def exOp (id : Nat) (cs : List Nat) (left : Option String) : Op :=
+  { id := id, corners := cs, bottomPatch := none, topPatch := none, sidePatches := [none, none, none, left],
+    bottomProj := none, topProj := none, sideProj := [none, none, none, none],
+    cornerProj := [[], [], [], [], [], [], [], []],
+    bottomEdges := [.line, .line, .line, .line], topEdges := [.line, .arc "a0", .line, .line],
+    sideEdges := [.line, .line, .line, .line], chops := [[⟨"1.0", 2⟩], [⟨"1.0", 3⟩], [⟨"0.5", 1⟩, ⟨"0.5", 2⟩]], zone := "" }
+
+/-- two boxes side by side, the first one deleted, a patch type changed, one vertex moved -/
+def exHistory : List Step :=
+  [.add (exOp 0 [0, 1, 2, 3, 4, 5, 6, 7] (some "inlet")), .add (exOp 1 [1, 8, 9, 2, 5, 10, 11, 6] none),
+   .modify "inlet" "wall" none, .delete 0, .assemble, .move 7 12, .write]
+
+example : Legal {} exHistory := by
+  simp [exHistory, Legal, step, add, exOp]
+
+example : isAssembled (run {} exHistory) = true := by decide +kernel
+
+/-- the hypotheses of `T_C12_backport_move` hold in that state and the back-ported depot is the expected one:
+    the deleted operation 0 keeps its points, operation 1 gets location 12 where vertex 7 was moved -/
+example : ((backport (run {} exHistory)).map (fun m => m.depot.map (·.corners)))
+    = some [[0, 1, 2, 3, 4, 5, 6, 7], [1, 8, 9, 2, 5, 10, 11, 12]] := by decide +kernel
+
+example : (run {} exHistory).lists.assembled.Nodup ∧
+    (run {} exHistory).lists.blocks.length = (run {} exHistory).lists.assembled.length := by decide +kernel
+
+/-- and the second write of that history returns the same file -/
+example : (written (write (run {} exHistory)).1).toOption = (written (run {} exHistory)).toOption ∧
+    (written (run {} exHistory)).toOption.isSome = true := by decide +kernel
+
+/-- a mesh that was never assembled is its own `clear` (hypothesis of `T_C12_clear_fresh`) -/
+example : clear (run {} (exHistory.take 4)) = run {} (exHistory.take 4) := by decide +kernel
+
+/-- hypothesis of `T_C12_aligned` / `T_C12_backport_unmoved`: the depot of the example history is well formed … -/
+example : DepotWF (run {} exHistory).depot :=
+  (T_C12_history exHistory (by simp [exHistory, Legal, step, add, exOp])).1
+
+/-- … and the re-assembled mesh is still assembled after quiet calls -/
+example : isAssembled (run (RT (run {} exHistory)) [.modify "inlet" "cyclic" (some ["k v"]), .write]) = true := by
+  decide +kernel
+
+/-- hypotheses of `T_C12_backport_single_move`: aligned (by `T_C12_aligned`) and with vertices -/
+example : Aligned (RT (run {} exHistory)) ∧ (RT (run {} exHistory)).lists.verts ≠ [] :=
+  ⟨T_C12_aligned _ (T_C12_history exHistory (by simp [exHistory, Legal, step, add, exOp])).1, by decide +kernel⟩
 
 end CBV.C12
